@@ -320,7 +320,9 @@ def run(ctx):
         for d in (-1, 0, 1):
             values += int_spellings(b + d)
     values += ['', ' ', 'abc', None, True, False, '1 0', '--1', '+-1', '１２', '1__0', '_1', '1_',
-               '٣', '1,000', '0b1', '1L', b'1' if False else '1\x00']
+               '٣', '1,000', '0b1', '1L', b'1' if False else '1\x00',
+               # one numeral written in two scripts
+               '1\u0662', '-4\uff17', '\u0662' + '1', '1\u0967' + '0', '12\u0663' + '4567890123']
     uniq = []
     seen = set()
     for v in values:
